@@ -106,13 +106,14 @@ def _mnemonic_codec_cells(ctx):
                 if back != ent:
                     return [ctx.bad(spec_d, "mnemonic_to_bytes of the phrase of %d bits of entropy gives %s…, not the entropy" % (bits, back.hex()[:8] if isinstance(back, bytes) else back),
                                     fn2, mod2, key="formula-dec")]
-                bad_phrase = list(want)
-                bad_phrase[-1] = "w%d" % (int(want[-1][1:]) ^ 1)      # flips the last checksum bit
-                try:
-                    Evaluator(ctx.repo, opaque=opaque, externals={"BIP39": wl}, method_hooks=hooks).call(spec_d, [" ".join(bad_phrase)])
-                    return [ctx.bad(spec_d, "a %d-word phrase whose last checksum bit is flipped is accepted" % len(want), fn2, mod2, key="checksum")]
-                except Raised:
-                    pass
+                for cs_bit in range(bits // 32):
+                    bad_phrase = list(want)
+                    bad_phrase[-1] = "w%d" % (int(want[-1][1:]) ^ (1 << cs_bit))      # flips one checksum bit (they all lie in the last word)
+                    try:
+                        Evaluator(ctx.repo, opaque=opaque, externals={"BIP39": wl}, method_hooks=hooks).call(spec_d, [" ".join(bad_phrase)])
+                        return [ctx.bad(spec_d, "a %d-word phrase with checksum bit %d flipped is accepted" % (len(want), cs_bit), fn2, mod2, key="checksum")]
+                    except Raised:
+                        pass
         for bits in (64, 96, 136, 288, 512):
             ctx.count("cells")
             try:
@@ -120,13 +121,23 @@ def _mnemonic_codec_cells(ctx):
                 return [ctx.bad(spec_e, "%d bits of entropy are accepted; BIP39 allows 128, 160, 192, 224, 256" % bits, fn, mod, key="table")]
             except Raised:
                 pass
-        for nwords in (3, 6, 9, 11, 13, 27):
-            ctx.count("cells")
-            try:
-                Evaluator(ctx.repo, opaque=opaque, externals={"BIP39": wl}, method_hooks=hooks).call(spec_d, [" ".join(["w1"] * nwords)])
-                return [ctx.bad(spec_d, "a phrase of %d words is accepted; BIP39 allows 12, 15, 18, 21, 24" % nwords, fn2, mod2, key="table")]
-            except Raised:
-                pass
+        for nwords in (3, 6, 9, 11, 13, 27, 30, 48):
+            phrases = [["w1"] * nwords]
+            if nwords % 3 == 0:
+                # a phrase of a size BIP39 does not allow whose checksum is self-consistent under the same formula (ENT = 32·w/3 bits, CS = w/3
+                # bits of the hash, taken from as many leading hash bytes as needed): only the word count can refuse it
+                ent = bytes((17 * i + 3) & 255 for i in range(nwords // 3 * 4))
+                cs = nwords // 3
+                total = (int.from_bytes(ent, "big") << cs) | (int.from_bytes(H(ent), "big") >> (256 - cs))
+                phrases.append(["w%d" % ((total >> (11 * (nwords - 1 - i))) & 0x7FF) for i in range(nwords)])
+            for ph in phrases:
+                ctx.count("cells")
+                try:
+                    Evaluator(ctx.repo, opaque=opaque, externals={"BIP39": wl}, method_hooks=hooks).call(spec_d, [" ".join(ph)])
+                    return [ctx.bad(spec_d, "a phrase of %d words%s is accepted; BIP39 allows 12, 15, 18, 21, 24" % (nwords, " with a self-consistent checksum" if ph is not phrases[0] else ""),
+                                    fn2, mod2, key="table")]
+                except Raised:
+                    pass
     except Undecided:
         return None
     return [ctx.ok(spec_e, "accepted sizes %s" % (BITS,), fn, mod, key="table"), ctx.ok(spec_d, "accepted sizes %s" % (WORDS,), fn2, mod2, key="table"),
@@ -635,7 +646,8 @@ OBLIGATIONS = [
     ("C14.10", "MEMO", c14_10),
     ("C14.9", "CELLS entropy mask", c14_9),
     ("C14.8", "CTOR-FORWARD", c14_8),
-    ("C14.1", "GUARD", c14_1),
+    ("C14.1", "GUARD", rl.deferring(c14_1, lambda ctx: _mnemonic_codec_cells(ctx) or [None], "mnemonic:mnemonic_to_bytes", "decided by the mnemonic codec cells (C14.2: every allowed size, phrases "
+                                    "with each checksum bit flipped and with other word counts are refused, the entropy comes back); the test is not in the form this rule reads", 3)),
     ("C14.2", "TABLE derived", c14_2),
     ("C14.3", "DATA", c14_3),
     ("C14.4", "CALL binding", c14_4),
